@@ -14,7 +14,8 @@ from .base import Check, Verdict, resolve_perturb
 
 SAFE_CONSTRAINTS = ["TaskStartAt", "TaskStartAfter", "TaskEndAt", "TaskEndBefore", "TaskPrecedence", "TasksStartSynced",
                     "TasksEndSynced", "TasksDontOverlap", "ResourceUnavailable", "OptionalTaskForceSchedule", "OptionalTasksDependency"]
-OBJECTIVES = ["MinimizeMakespan", "MinimizeFlowtime", "TasksStartLatest", "TasksStartEarliest", "Priorities", "MinimizeGreatestStartTime"]
+OBJECTIVES = ["MinimizeMakespan", "MinimizeFlowtime", "TasksStartLatest", "TasksStartEarliest", "Priorities", "MinimizeGreatestStartTime",
+              "MinimizeFlowtimeSingleResource"]
 
 
 def examiner_spec(world, step):
